@@ -142,6 +142,23 @@ pub fn check(m: &Model, praw: &str, o: &EntOpts, items: &[Result<EntryView, Stri
     }
     let oks: Vec<&EntryView> = items.iter().filter_map(|x| x.as_ref().ok()).collect();
     let errs: Vec<&String> = items.iter().filter_map(|x| x.as_ref().err()).collect();
+    let key = |e: &EntryView| format!("{}|{}|{}{}{}{}|{:o}", e.path, e.alt, e.dir as u8, e.file as u8, e.link as u8, e.following as u8, e.mode);
+    let mut want: BTreeMap<String, i64> = BTreeMap::new();
+    for e in &exp.items {
+        *want.entry(key(e)).or_insert(0) += 1;
+    }
+    let mut got: BTreeMap<String, i64> = BTreeMap::new();
+    for e in &oks {
+        *got.entry(key(e)).or_insert(0) += 1;
+    }
+    if exp.loop_possible || exp.dangling {
+        // whatever was yielded before the traversal stopped must be legitimate: nothing outside
+        // the selection and nothing more often than the selection holds it
+        let extra: Vec<&String> = got.iter().filter(|(k, n)| **n > want.get(*k).copied().unwrap_or(0)).map(|(k, _)| k).collect();
+        if !extra.is_empty() {
+            return Err(("extra-items-before-stop".into(), format!("yielded outside / beyond the selection: {:?}", extra)));
+        }
+    }
     if exp.loop_possible {
         for (i, it) in items.iter().enumerate() {
             if let Err(k) = it {
@@ -173,15 +190,6 @@ pub fn check(m: &Model, praw: &str, o: &EntOpts, items: &[Result<EntryView, Stri
         return Err(("unexpected-error".into(), format!("errors yielded: {:?}", errs)));
     }
     // multiset equality
-    let key = |e: &EntryView| format!("{}|{}|{}{}{}{}|{:o}", e.path, e.alt, e.dir as u8, e.file as u8, e.link as u8, e.following as u8, e.mode);
-    let mut want: BTreeMap<String, i64> = BTreeMap::new();
-    for e in &exp.items {
-        *want.entry(key(e)).or_insert(0) += 1;
-    }
-    let mut got: BTreeMap<String, i64> = BTreeMap::new();
-    for e in &oks {
-        *got.entry(key(e)).or_insert(0) += 1;
-    }
     if want != got {
         let mut extra = vec![];
         let mut missing = vec![];
